@@ -12,7 +12,7 @@ PROP = "C02"
 
 def run(ctx):
     res = Result(PROP)
-    res.rules = ["R-ENC", "R-EXIT", "R-INC", "R-ATTR", "R-EXC", "R-ONCE", "U-OWN", "U-COPY", "U-FUNC"]
+    res.rules = ["R-ENC", "R-EXIT", "R-INC", "R-ATTR", "R-EXC", "R-ONCE", "U-OWN", "U-COPY", "U-FUNC", "U-PROV", "U-GUARD", "U-BUMP"]
     res.explanation = (
         "As C01, for every writer method of DiHypergraph: table writes become relational delta formulas for E.in/E.out "
         "and N.in/N.out; the invariant pairs E.in with N.out and E.out with N.in, so gains and losses of each pair must "
@@ -22,5 +22,5 @@ def run(ctx):
     eng = run_class(ctx, res, PROP, "DiHypergraph", True, 10, skip=("__init__", "__setstate__"))
     if not ctx.only:
         check_enc(ctx, res, PROP, eng)
-        check_fresh(ctx, res, PROP)
+        check_fresh(ctx, res, PROP, ("DiHypergraph",))
     return res
